@@ -1228,3 +1228,20 @@ def m_trim_end_matches_char(c, p, ch):
     while n > 0 and its[n - 1].v == ch.v:
         n -= 1
     return Ptr(Cell(SeqView(s, 0, n), 'trimmed'), ())
+
+
+@model(r'^(?:\w+::)*str::<impl str>::split::<char>$')
+def m_split_char(c, p, ch):
+    """str::split(char) on a string whose bytes are all concrete."""
+    ip = c.ip
+    s = seq(ip, p)
+    its = list(s.items)
+    if any(not b.concrete for b in its) or not ch.concrete:
+        raise Inconclusive("str::split on a symbolic string")
+    out, start = [], 0
+    for i, b in enumerate(its):
+        if b.v == ch.v:
+            out.append(Ptr(Cell(SeqView(s, start, i - start), 'piece'), ()))
+            start = i + 1
+    out.append(Ptr(Cell(SeqView(s, start, len(its) - start), 'piece'), ()))
+    return IterV(out)
